@@ -100,7 +100,10 @@ def classify(n, obs):
         for s in l:
             if s["p"] == p:
                 claimed_any.add(i + 1)
-                forged = forged or not s["ok"]
+                # the proposer's own entry stands for the proposal held in the pool (verified at intake; on the proposer's own
+                # node the entry carries no signature bytes at all): never a forged signature
+                if not (i + 1 == p and p in obs["props"]):
+                    forged = forged or not s["ok"]
                 if s["e"] == e:
                     claimed_same.add(i + 1)
     in_msgs = set()
